@@ -9,6 +9,7 @@ import (
 	"fmt"
 	"go/types"
 	"math"
+	"os"
 	"strconv"
 	"strings"
 )
@@ -77,6 +78,20 @@ func (in *Interp) realisableModel() (Model, bool) {
 	e := in.ex
 	for round := 0; round < 64; round++ {
 		m := e.ensureModel()
+		if m != nil {
+			// self-check: the model must satisfy every conjunct of the path condition
+			for _, c := range e.pc {
+				if ok, known := m.EvalBool(c); known && !ok {
+					e.StaleModels++
+					if os.Getenv("GOSYM_DEBUG_MODEL") != "" {
+						fmt.Fprintf(os.Stderr, "STALE MODEL in %s: pc conjunct false under the cached model\n", in.harness)
+					}
+					e.modelOK = false
+					m = e.ensureModel()
+					break
+				}
+			}
+		}
 		if m == nil {
 			res, _ := e.solver.Check(nil, false)
 			return nil, res != "unsat"
@@ -132,9 +147,7 @@ func (in *Interp) vAssert(c Bool, label string) {
 		panic(pathEnd{"assert-failed"})
 	}
 	neg := Not(c.S)
-	if v, ok := e.evalModel(neg); ok && v && len(in.ufCalls) == 0 {
-		in.recordFinding("assert", label, "")
-	} else {
+	{
 		res, m := e.check(neg)
 		for round := 0; res == "sat" && m != nil && round < 64; round++ {
 			facts := in.refineStubs(m)
